@@ -94,3 +94,67 @@ def boundary_start(kind, back):
 
 
 PAIRS = [(ia, ea) for ia in (1, 2) for ea in (0, 1, 2)]
+
+
+# ----------------------------------------------------------------------------- shrinking of failing histories
+def still_bad(chk, st, c):
+    """run one history again through harness + model/spec; (fails?, observation)"""
+    o = C.harness_call(os.path.join(C.BIN, "harness"), st.sub, [st.go_case(c)])[0]
+    if st.direct_check(c, o):
+        return True, o
+    bm, bs = chk.eval_cases(st, [c], [o])
+    return (bool(bs) if st.spec_check else bool(bm)), o
+
+
+def cut_ops(c, keep):
+    """the history restricted to the op indices in keep (C10 reference histories carry their sender parameters in
+    c["spec"]["items"], item i belonging to op i+1: only prefixes keep them meaningful)"""
+    d = dict(c, ops=[c["ops"][i] for i in keep])
+    if "spec" in c:
+        n = len(keep) - 1
+        d["spec"] = dict(c["spec"], items=c["spec"]["items"][:n])
+    return d
+
+
+def shrink_history(chk, st, c, o, budget=120):
+    """shortest failing prefix (binary search: the checks are cumulative), then, for histories whose ops do not
+    depend on each other's outputs, single-op removal; bounded by wall time"""
+    import time
+    t0 = time.time()
+    n = len(c["ops"])
+    lo, hi = 1, n            # invariant: prefix of length hi fails
+    best, best_o = c, o
+    try:
+        while lo < hi and time.time() - t0 < budget:
+            mid = (lo + hi) // 2
+            cand = cut_ops(c, list(range(mid)))
+            bad, oo = still_bad(chk, st, cand)
+            if bad:
+                hi, best, best_o = mid, cand, oo
+            else:
+                lo = mid + 1
+        if "spec" not in c:
+            i = 0
+            while i < len(best["ops"]) - 1 and time.time() - t0 < budget:
+                keep = [j for j in range(len(best["ops"])) if j != i]
+                cand = cut_ops(best, keep)
+                bad, oo = still_bad(chk, st, cand)
+                if bad:
+                    best, best_o = cand, oo
+                else:
+                    i += 1
+    except Exception as e:           # shrinking is best effort: report the unshrunk case rather than nothing
+        C.log("shrink failed: %s" % str(e)[-500:])
+    best = dict(best, shrunk_from=n)
+    return best, best_o
+
+
+class ShrinkMixin:
+    """Check mix-in: the first failing history of every stream is shrunk before it becomes a replay file"""
+    def report_case(self, st, c, o, why, expected):
+        done = self.__dict__.setdefault("_shrunk", set())
+        if isinstance(c, dict) and "ops" in c and st.name not in done and len(c["ops"]) > 1:
+            done.add(st.name)            # the first failing history of every stream
+            c, o = shrink_history(self, st, c, o)
+            expected = self.expected(st, c, o)
+        super().report_case(st, c, o, why, expected)
